@@ -18,18 +18,27 @@ def groups(tier, seed):
     def g(mode, fn, defs, tag, unwind, timeout=600):
         d = {"H_" + mode: None}
         d.update(defs)
-        gs.append(Group(gid="IO.%s.%s" % (fn, tag), props=P, harness="c18.c", function=fn, layer="IO", defines=d, tus=TUS, native_tus=[], assert_mode=True, unwind=unwind, bounded=True,
+        # small base bound for the reader/writer loops (symex cannot fold A->width to a constant there and would unroll nested loops
+        # to the blanket bound); the constant-bound loops of the stubs and the harness get their own bounds
+        us = {"png_read_row.0": 42, "png_write_row.0": 42, "fread.0": 18, "sprintf.0": 21}
+        gs.append(Group(gid="IO.%s.%s" % (fn, tag), props=P, harness="c18.c", function=fn, layer="IO", defines=d, tus=TUS, native_tus=[], assert_mode=True, unwind=unwind, unwindset=us if "PNG" in mode else {}, bounded=True,
                         bound_note="dimensions " + tag, shape=tag, timeout=timeout, mem_gb=16, solver="--sat-solver cadical"))
     for m, n in ((1, 1), (2, 3), (3, 64), (2, 70)) if q else ((1, 1), (2, 3), (3, 64), (2, 70), (1, 130), (3, 65)):
-        g("FROM_STR", "mzd_from_str", {"M_": m, "N_": n}, "%dx%d" % (m, n), max(m, n) + 4)
-    for hm, hn, nt in ((2, 3, 4), (1, 70, 3), (3, 1, 5), (0, 4, 2), (2, 0, 2), (-1, 3, 2), (2, -1, 2)):
+        g("FROM_STR", "mzd_from_str", {"M_": m, "N_": n}, "%dx%d" % (m, n), max(m, n, 16) + 4)
+    for hm, hn, nt in ((2, 3, 4), (1, 70, 3), (3, 1, 5), (0, 4, 2), (2, 0, 2), (2, -1, 2)):   # negative row count: the allocation request is astronomically large (controlled abort in the allocator wrapper, C20); not modelled here
         g("FROM_JCF", "mzd_from_jcf", {"HM": "(%d)" % hm, "HN": "(%d)" % hn, "NTOK": nt}, "%dx%d.tok%d" % (hm, hn, nt), 20)
-    for hm, hn in ((2, 3), (1, 8), (2, 9), (1, 64), (2, 70)):
-        g("FROM_PNG", "mzd_from_png", {"HM": hm, "HN": hn}, "%dx%d" % (hm, hn), 45)
+    # IHDR fields enumerated: (bit depth, colour type, interlace, fopen fails, create_read_struct fails)
+    # every decision of the reader is enumerated (measured: one symbolic branch over its early-exit paths exhausts memory in the SAT encoding):
+    # (bit depth, colour type, interlace, fopen fails, create_read_struct fails, signature mismatch, short read)
+    hdrs = [(dp, ct, il, 0, 0, 0, 0) for dp in (1, 2, 4, 8, 16) for ct in (0, 2, 3, 4, 6) for il in (0, 1)] + [(1, 0, 0, 1, 0, 0, 0), (1, 0, 0, 0, 1, 0, 0), (1, 0, 0, 0, 0, 1, 0), (1, 0, 0, 0, 0, 0, 1)]
+    for hm, hn in ((2, 9), (1, 70)) if q else ((2, 3), (1, 8), (2, 9), (1, 64), (2, 70)):
+        for dp, ct, il, ff, cf, sb, fs in hdrs:
+            g("FROM_PNG", "mzd_from_png", {"HM": hm, "HN": hn, "PNG_DEPTH": dp, "PNG_COLOR": ct, "PNG_INTERLACE": il, "PNG_FOPEN_FAILS": ff, "PNG_CREATE_FAILS": cf, "PNG_SIGBAD": sb, "PNG_FREAD_SHORT": fs},
+              "%dx%d.depth%d.color%d.il%d.f%d%d%d%d" % (hm, hn, dp, ct, il, ff, cf, sb, fs), 8)
     for hn in ([1, 7, 8, 9, 63, 64, 65, 70] if q else list(range(1, 18)) + [31, 32, 33, 56, 57, 63, 64, 65, 70, 71, 72, 73, 127, 128, 129, 130]):
         for kind in ("owned", "view1"):
             d = mat(2, hn, kind)
             d.pop("NR"), d.pop("NC")
             d.update({"HM": 2, "HN": hn})
-            g("PNG_ROUNDTRIP", "mzd_to_png o mzd_from_png", d, "2x%d.%s" % (hn, kind), 45)
+            g("PNG_ROUNDTRIP", "mzd_to_png o mzd_from_png", d, "2x%d.%s" % (hn, kind), 8)
     return with_canaries(gs)
